@@ -185,3 +185,15 @@ Definition group_func_wrap (r : rname) (group_key : list Z) (values : list (list
             Ok (combine_factorized merge_name chunks counts))).
 
 End Reduce.
+
+(* what initial_value / build_target encode of _build_target_for_groupby, and which 1-D kernel each rolling operation
+   dispatches to (regenerated tables: Gen/TablesGen.gen_build_target_rule / gen_rolling_dispatch) *)
+From Coq Require Import String.
+Open Scope string_scope.
+Definition build_target_rule : list (string * string) :=
+  [("operation in ('count', 'nancount')", "np.zeros(shape, dtype=bool)");
+   ("'sum' in operation", "0");
+   ("else", "_null_value_for_numpy_type(np.dtype(dtype))")].
+Definition rolling_dispatch : list (string * string) :=
+  [("sum", "_rolling_sum_or_mean_1d"); ("mean", "_rolling_sum_or_mean_1d"); ("min", "_rolling_max_or_min_1d");
+   ("max", "_rolling_max_or_min_1d"); ("shift", "_rolling_shift_or_diff_1d"); ("diff", "_rolling_shift_or_diff_1d")].
